@@ -26,10 +26,19 @@ def _canon(res):
     return ["scalar", res.id]
 
 
+def _fresh(v):
+    """The index value handed to the real code.  Python `bool`s stay bools (a bool IS an int: rows[True][False] is ordinary list
+    indexing); an int is re-made from its decimal text, so that outside CPython's small-int cache (-5..256) it is a NEW object -
+    equal to, but never identical with, a shape entry, a literal or an earlier index (what arithmetic / parsing give a caller)."""
+    if type(v) is int:
+        return int(str(v))
+    return v
+
+
 def _pykey(k):
     if k[0] == "i":
-        return k[1]
-    return slice(k[1], k[2], k[3])
+        return _fresh(k[1])
+    return slice(_fresh(k[1]), _fresh(k[2]), _fresh(k[3]))
 
 
 def _pykey2(key):
@@ -37,7 +46,17 @@ def _pykey2(key):
         return _pykey(key[1])
     if key[0] == "pair":
         return (_pykey(key[1]), _pykey(key[2]))
-    return [tuple(p) for p in key[1:]]
+    return [tuple(_fresh(c) for c in p) for p in key[1:]]
+
+
+def _w(x):
+    """Wire form for the Lean model: its indices are integers, and Python's `bool` is a subclass of `int` (True == 1, False == 0),
+    so a bool index / slice component / coordinate is sent as 1 / 0.  (The plain-Python oracles get the bools themselves.)"""
+    if isinstance(x, bool):
+        return int(x)
+    if isinstance(x, (list, tuple)):
+        return [_w(e) for e in x]
+    return x
 
 
 def real2(arr, key):
@@ -150,14 +169,89 @@ def _nested_cases(rng, maxh=4, maxw=4, ids="random"):
     return cases
 
 
+BOOL_SLICES = [("s", True, None, None), ("s", None, True, None), ("s", None, None, True), ("s", False, True, True),
+               ("s", True, False, -1), ("s", None, None, False), ("s", False, None, 2), ("s", -1, False, True)]
+
+
 def _axis_keys(bound, steps):
-    ks = [("i", i) for i in range(-bound, bound + 1)]
+    """Every int index in [-bound, bound], the two bools (ints of an unusual kind: True == 1, False == 0), every slice with bounds
+    in [-bound-1, bound+1] or None and the given steps, and a few slices with bool components."""
+    ks = [("i", i) for i in range(-bound, bound + 1)] + [("i", True), ("i", False)]
     opts = [None] + list(range(-bound - 1, bound + 2))
     for a in opts:
         for b in opts:
             for c in steps:
                 ks.append(("s", a, b, c))
-    return ks
+    return ks + BOOL_SLICES
+
+
+def _bool_cases():
+    """(h, w, key): bools as integer indices in every key position (single key, both pair components, next to ints and slices,
+    coordinate pairs) on every shape 0x0 .. 3x3."""
+    B = (True, False)
+    full = ("s", None, None, None)
+    cases = []
+    for h in range(0, 4):
+        for w in range(0, 4):
+            for b in B:
+                cases.append((h, w, ("one", ("i", b))))
+                cases.append((h, w, ("pair", ("i", b), full)))
+                cases.append((h, w, ("pair", full, ("i", b))))
+                cases.append((h, w, ("pair", ("i", b), ("s", None, None, -1))))
+                cases.append((h, w, ("pair", ("s", True, None, None), ("i", b))))
+                cases.append((h, w, ("coords", (b, b))))
+                for c in B:
+                    cases.append((h, w, ("pair", ("i", b), ("i", c))))
+                for i in range(-w - 1, w + 1):
+                    cases.append((h, w, ("pair", ("i", b), ("i", i))))
+                    cases.append((h, w, ("coords", (b, i))))
+                for i in range(-h - 1, h + 1):
+                    cases.append((h, w, ("pair", ("i", i), ("i", b))))
+                    cases.append((h, w, ("coords", (i, b))))
+            cases.append((h, w, ("coords", (True, False), (False, True), (0, 0))))
+            cases.append((h, w, ("coords", (h - 1, True), (True, False), (False, -1))))
+    return cases
+
+
+LONG = 300
+
+
+def _long_cases():
+    """(h, w, key) on the long thin arrays 1 x 300 and 300 x 1: indices, slice bounds and coordinates at and beyond +-257 (outside
+    CPython's small-int cache: equal ints are distinct objects there; `_pykey` makes every one a fresh object), around the length
+    and its negative."""
+    n = LONG
+    full = ("s", None, None, None)
+    idx = [255, 256, 257, 258, n - 2, n - 1, n, n + 1, -255, -256, -257, -258, -(n - 1), -n, -n - 1]
+    sl = [("s", 257, None, None), ("s", None, 257, None), ("s", 256, 259, None), ("s", -258, -256, None), ("s", None, -257, None),
+          ("s", n - 1, 255, -1), ("s", n, None, -257), ("s", 1, None, 257), ("s", 257, 257, None), ("s", -n - 1, -n + 1, None),
+          ("s", 258, 256, True), ("s", None, None, 299)]
+    cases = []
+    for (h, w) in ((1, n), (n, 1)):
+        long_first = h == n
+        for i in idx:
+            k = ("i", i)
+            if long_first:
+                cases += [(h, w, ("one", k)), (h, w, ("pair", k, ("i", 0))), (h, w, ("pair", k, full)), (h, w, ("pair", k, ("i", False))),
+                          (h, w, ("coords", (i, 0))), (h, w, ("coords", (i, -1), (0, 0), (i, False)))]
+            else:
+                cases += [(h, w, ("pair", ("i", 0), k)), (h, w, ("pair", full, k)), (h, w, ("pair", ("i", -1), k)),
+                          (h, w, ("pair", ("i", False), k)), (h, w, ("coords", (0, i))), (h, w, ("coords", (-1, i), (0, 0), (False, i)))]
+        for k in sl:
+            if long_first:
+                cases += [(h, w, ("one", k)), (h, w, ("pair", k, ("i", 0))), (h, w, ("pair", k, full))]
+            else:
+                cases += [(h, w, ("pair", full, k)), (h, w, ("pair", ("i", 0), k)), (h, w, ("pair", ("s", None, None, -1), k))]
+        # the same index twice in one key (two equal ints, two objects), and the last element addressed both ways
+        cases.append((h, w, ("coords", (h - 1, w - 1), (-1, -1), (h - 1, w - 1))))
+    return cases
+
+
+def _long_cases_1d():
+    n = LONG
+    ks = [("i", i) for i in (256, 257, 258, n - 1, n, -257, -258, -n, -n - 1)]
+    ks += [("s", 257, None, None), ("s", None, -257, None), ("s", n - 1, 255, -1), ("s", 1, None, 257), ("s", 258, 256, True)]
+    return [(n, k) for k in ks]
 
 
 def _cases(ctx):
@@ -199,12 +293,24 @@ def _cases(ctx):
         w = rng.randint(0, maxdim)
         n = rng.randint(0, 4)
         cases.append((h, w, ("coords",) + tuple((rng.randint(-h - 1, h), rng.randint(-w - 1, w)) for _ in range(n))))
-    return cases
+    # coordinate lists in which some components are bools
+    for _ in range(ctx.n(1000, 10000)):
+        h = rng.randint(0, maxdim)
+        w = rng.randint(0, maxdim)
+
+        def comp(d):
+            return rng.choice([True, False]) if rng.random() < 0.4 else rng.randint(-d - 1, d)
+        cases.append((h, w, ("coords",) + tuple((comp(h), comp(w)) for _ in range(rng.randint(1, 4)))))
+    # deterministic corners: bools in every key position; indices beyond +-257 on long thin arrays
+    return _bool_cases() + _long_cases() + cases
 
 
 def correspond(ctx):
     ctx.extra["rule"] = ("exhaustive sweep of every per-axis key (ints and slices with bounds in [-b-1,b+1] or None, steps in "
-                         "[-s,s] or None) on every shape up to d x d, plus random key pairs, large bounds, coordinate lists; "
+                         "[-s,s] or None, the two bools as indices, slices with bool components) on every shape up to d x d, plus random key pairs, "
+                         "large bounds, coordinate lists (ints and bools); bools in every key position on 0x0..3x3; indices, slice bounds and "
+                         "coordinates at and beyond +-257 on 1x300 / 300x1 / length-300 arrays; every int handed to the real code is a fresh "
+                         "object; bools go to the Lean model as 1/0; "
                          "real Array2D/Array1D __getitem__ vs Lean model vs Lean spec vs CPython list-of-lists oracle; "
                          "a case is non-trivial+distinct by (shape, key) when the selection is non-empty or an error; "
                          "nested-list constructor: every shape 1x0..4x4 with random distinct ids, the empty list, one short / one long row at "
@@ -214,8 +320,8 @@ def correspond(ctx):
     drv = core.Driver()
     lines = []
     for (h, w, key) in cases:
-        lines.append(sx(["gi2", h, w, key]))
-        lines.append(sx(["spec2", h, w, key]))
+        lines.append(sx(["gi2", h, w, _w(key)]))
+        lines.append(sx(["spec2", h, w, _w(key)]))
     outs = drv.run(lines)
     arrs = {}
     for idx, (h, w, key) in enumerate(cases):
@@ -280,7 +386,8 @@ def correspond(ctx):
     for n in range(0, ctx.n(5, 7)):
         for k in keys:
             c1.append((n, k))
-            lines.append(sx(["gi1", n, k]))
+    c1 += _long_cases_1d()
+    lines = [sx(["gi1", n, _w(k)]) for (n, k) in c1]
     outs = drv.run(lines)
     for (n, k), out in zip(c1, outs):
         r = real1(n, k)
@@ -300,7 +407,7 @@ def correspond(ctx):
         for k in keys:
             if k[0] == "s":
                 c2.append((n, k))
-                lines.append(sx(["sliceidx", n, k[1], k[2], k[3]]))
+                lines.append(sx(["sliceidx", n, _w(k[1]), _w(k[2]), _w(k[3])]))
     outs = drv.run(lines)
     for (n, k), out in zip(c2, outs):
         try:
@@ -386,10 +493,22 @@ def _classify(key, r, o):
 
 
 def search(ctx, why):
-    """All (shape <= 3x3, per-axis key) combinations on the real code against CPython list semantics."""
+    """All (shape <= 3x3, per-axis key) combinations on the real code against CPython list semantics (keys: ints, the two bools,
+    slices incl. bool components; coordinate pairs of ints / bools), then the long thin arrays with indices beyond +-257."""
     full = ("s", None, None, None)
     keys = _axis_keys(4, [None, -2, -1, 0, 1, 2])
     found = {}
+    selects = set()
+
+    def prefer(cls, f):
+        """Keep the first failing input of a class, but let one on which the list of lists SELECTS something replace one on which
+        the list of lists raises as well (only the exception class differs): the clearer witness."""
+        good = f[1][:1] != ["err"]
+        if cls not in found or (good and cls not in selects):
+            if good:
+                selects.add(cls)
+            return True
+        return False
     # the nested-list constructor: real (shape, ids) / exception vs the plain list-of-lists reading
     import random as _random
     for (label, rows) in _nested_cases(_random.Random(0), 4, 4, ids="sequential"):
@@ -415,21 +534,29 @@ def search(ctx, why):
                                 "getitem:" + cls,
                                 f"Array2D[{sx(key)}] on shape {h}x{w} returns {sx(f[0])} but the list of lists gives {sx(f[1])}",
                                 {"h": h, "w": w, "key": key, "real": f[0], "expected": f[1]})
-            for y in range(-h - 1, h + 1):
-                for x in range(-w - 1, w + 1):
+            for y in list(range(-h - 1, h + 1)) + [True, False]:
+                for x in list(range(-w - 1, w + 1)) + [True, False]:
                     key = ("coords", (y, x))
                     f = _fail(h, w, key)
-                    if f and "coords" not in found:
+                    if f and prefer("coords", f):
                         found["coords"] = Finding("getitem:coords", f"Array2D[[({y},{x})]] on {h}x{w}: {sx(f[0])} vs {sx(f[1])}",
                                                   {"h": h, "w": w, "key": key, "real": f[0], "expected": f[1]})
-    for n in range(0, 5):
-        for k in keys:
-            for b in (True, False):
-                r = real1(n, k, b)
-                o = oracle1(n, k)
-                if r != o and "1d" not in found:
-                    found["1d"] = Finding("getitem:1d", f"Array1D[{sx(k)}] on length {n}: {sx(r)} vs list {sx(o)}",
-                                          {"n": n, "key": k, "real": r, "expected": o, "one_d": True})
+    # deterministic corners: bools as indices in every key position; indices / slice bounds / coordinates beyond +-257 on 1x300, 300x1
+    for (h, w, key) in _bool_cases() + _long_cases():
+        f = _fail(h, w, key)
+        if f:
+            cls = "nested-list-constructor" if len(f) == 3 else "coords" if key[0] == "coords" else _classify(key, *f[:2])
+            if prefer(cls, f):
+                found[cls] = Finding("getitem:" + cls,
+                                     f"Array2D[{sx(key)}] on shape {h}x{w} returns {sx(f[0])[:200]} but the list of lists gives {sx(f[1])[:200]}",
+                                     {"h": h, "w": w, "key": key, "real": f[0], "expected": f[1]})
+    for (n, k) in [(n, k) for n in range(0, 5) for k in keys] + _long_cases_1d():
+        for b in (True, False):
+            r = real1(n, k, b)
+            o = oracle1(n, k)
+            if r != o and "1d" not in found:
+                found["1d"] = Finding("getitem:1d", f"Array1D[{sx(k)}] on length {n}: {sx(r)[:200]} vs list {sx(o)[:200]}",
+                                      {"n": n, "key": k, "real": r, "expected": o, "one_d": True})
     # reshape / flatten
     from cspuz.array import BoolArray1D
     from cspuz.expr import BoolVar
